@@ -21,7 +21,7 @@ import (
 
 type gact struct {
 	AtMs int64 `json:"at_ms"`
-	Kind int   `json:"kind"` // 1 application send, 2 inbound Heartbeat, 3 inbound application message, 4 inbound ResendRequest(1,0), 5 inbound retransmission (PossDupFlag=Y, an old number), 6 inbound TestRequest
+	Kind int   `json:"kind"` // 1 application send, 2 inbound Heartbeat, 3 inbound application message, 4 inbound ResendRequest(1,0), 5 inbound retransmission (PossDupFlag=Y, an old number), 6 inbound TestRequest, 7 inbound Heartbeat without MsgSeqNum, 8 inbound application message with a non-numeric MsgSeqNum
 }
 
 type gridCase struct {
@@ -127,6 +127,14 @@ func gridRun(c gridCase) (o gridObs, sig, detail string) {
 			// a TestRequest of the peer: inbound traffic, and the Heartbeat that answers it is outbound traffic like any other
 			o.inAt = append(o.inAt, vsched.NowOffset())
 			w.h.ServeIncoming(w.msg("1", "112=probe"))
+		case 7:
+			// a message whose MsgSeqNum is missing: rejected (C16), but it arrived, and "any inbound message of any type" is a sign of life
+			o.inAt = append(o.inAt, vsched.NowOffset())
+			w.h.ServeIncoming(withField(rawFrom(w.peer, w.self, "0", w.nextIn), "34", "\x00del"))
+		case 8:
+			// the same with a MsgSeqNum that is not a number
+			o.inAt = append(o.inAt, vsched.NowOffset())
+			w.h.ServeIncoming(withField(rawFrom(w.peer, w.self, "D", w.nextIn, "11=x"), "34", "abc"))
 		case 4:
 			// the retransmissions it draws are outbound traffic like any other
 			o.inAt = append(o.inAt, vsched.NowOffset())
@@ -554,6 +562,29 @@ func runGrid(R *vlib.Out, prop string) {
 					for _, t2 := range cg[i+1:] {
 						if !try(gridCase{Role: role, N: N, Acts: []gact{{t1, 5}, {t2, 5}}, Horizon: horizon, Pattern: "possdup"}) {
 							return
+						}
+					}
+				}
+			}
+			if prop == "C09" {
+				// messages whose sequence number cannot be read (missing, not a number) are answered with a Reject
+				// and are inbound traffic all the same: one anywhere on the grid, two on the coarse grid, and one
+				// of them after an ordinary message
+				for _, k := range []int{7, 8} {
+					for _, t := range grid {
+						if !try(gridCase{Role: role, N: N, Acts: []gact{{t, k}}, Horizon: horizon, Pattern: "unreadable-seq"}) {
+							return
+						}
+					}
+					cg := gridPoints(N, true)
+					for i, t1 := range cg {
+						for _, t2 := range cg[i+1:] {
+							if !try(gridCase{Role: role, N: N, Acts: []gact{{t1, k}, {t2, k}}, Horizon: horizon, Pattern: "unreadable-seq"}) {
+								return
+							}
+							if !try(gridCase{Role: role, N: N, Acts: []gact{{t1, 2}, {t2, k}}, Horizon: horizon, Pattern: "unreadable-seq"}) {
+								return
+							}
 						}
 					}
 				}
